@@ -1203,7 +1203,13 @@ func (t *Tree) Compile(file string, args []string, out io.Writer) (err error) {
 			elements[0].SetParentDetect(n.ParentDetect())
 			elements[0].SetParentMultipleKey(n.ParentMultipleKey())
 			for _, element := range elements {
-				labelLast = compile(element, ko)
+				last := compile(element, ko)
+				switch element.GetType() {
+				case TypeNil, TypeCommit, TypeComment:
+					// nothing was emitted: what ended the previous element still ends the sequence
+				default:
+					labelLast = last
+				}
 			}
 		case TypePeekFor:
 			ok := label
